@@ -39,9 +39,6 @@ func exactScript(name string, data []byte) []Directive {
 		}
 		sc = append(sc, Directive{PP: pp})
 	}
-	if len(sc) == 0 {
-		sc = []Directive{{PP: 0}}
-	}
 	return sc
 }
 
